@@ -24,9 +24,10 @@ def weighted(rng, out, kind=None, dtype=float):
 
     kinds: 'signed' (uniform magnitudes, random signs), 'cancel' (weights +-w so
     that columns/rows/total tend to sum to exactly zero), 'negative', 'wide'
-    (magnitudes over 1e-3..1e3), 'int' (small signed integers)."""
+    (magnitudes over 1e-3..1e3), 'int' (small signed integers), 'tiny' (a mix of
+    ordinary weights and non-zero weights of magnitude 1e-9 .. 5e-324)."""
     p = len(out)
-    kinds = ["signed", "cancel", "negative", "wide", "int"]
+    kinds = ["signed", "cancel", "negative", "wide", "int", "tiny"]
     if kind is None:
         kind = kinds[int(rng.integers(len(kinds)))]
     W = np.zeros((p, p), dtype=float)
@@ -40,6 +41,12 @@ def weighted(rng, out, kind=None, dtype=float):
                 w = 10 ** rng.uniform(-3, 3) * rng.choice([-1, 1])
             elif kind == "int":
                 w = float(rng.choice([-3, -2, -1, 1, 2, 3]))
+            elif kind == "tiny":
+                # non-zero but far below any absolute tolerance (down to denormals): the non-zero pattern is what counts
+                if rng.random() < 0.6:
+                    w = float(rng.choice([-1, 1])) * float(rng.choice([1e-9, 1e-12, 1e-100, 1e-300, 5e-324, 10 ** rng.uniform(-200, -8.5)]))
+                else:
+                    w = rng.uniform(0.1, 3) * rng.choice([-1, 1])
             else:  # cancel: filled below
                 w = 1.0
             W[i, j] = w
@@ -107,3 +114,96 @@ def random_pdag_masks(rng, p, mode=None):
             if (i, j) not in keep:
                 out[j] |= 1 << i
     return out
+
+
+# ---------------------------------------------------------------------------
+# the same array object, overwritten in place, handed to the library again and again
+
+_BUFFERS = {}
+
+
+def reuse(A):
+    """Return a persistent caller-owned buffer (one per shape and dtype) overwritten in place with A's content.
+    A caller may legitimately edit his own array between two library calls; anything the library remembers about an
+    array *object* (identity-keyed caches, stored views) then shows up as a wrong answer for the new content."""
+    A = np.asarray(A)
+    key = (A.shape, A.dtype.str)
+    buf = _BUFFERS.get(key)
+    if buf is None:
+        buf = np.zeros(A.shape, dtype=A.dtype)
+        _BUFFERS[key] = buf
+    buf[...] = A
+    return buf
+
+
+# labels that collide modulo 8 (the table size of small Python sets): the iteration order of a set of such labels depends on
+# which other labels are in the set, e.g. {1, 8} iterates as [8, 1] but {0, 1, 8} as [0, 1, 8]
+HOSTILE_SMALL = (0, 1, 2, 3)
+HOSTILE_LARGE = (8, 9, 10, 11, 16, 17, 18, 19)
+
+
+def embed_hostile(out, rng):
+    """Embed into 20 nodes with labels chosen so that Python's set iteration order of a *pair* of labels differs from
+    numeric order (a small label 3..7 together with a label >= 8 that is small modulo 8), while larger sets may come out
+    in yet another order.  Code that relies on sets of nodes being iterated in increasing order breaks on these."""
+    p = len(out)
+    pool = list(HOSTILE_SMALL) + list(HOSTILE_LARGE)
+    for _ in range(20):
+        labels = [int(v) for v in rng.choice(pool, p, replace=False)]
+        if p < 2 or (min(labels) < 8 <= max(labels)):
+            break
+    P = 20
+    big = [0] * P
+    for i in range(p):
+        for j in G.bits(out[i]):
+            big[labels[i]] |= 1 << labels[j]
+    return big
+
+
+def embed(out, P, rng):
+    """Embed the graph ``out`` (p nodes) into P >= p nodes under a random injective relabelling (the other nodes stay
+    isolated).  Graph notions are label-equivariant; Python sets of node labels iterate in hash order, not numeric
+    order, once labels reach 8, so relabelled copies exercise order assumptions the small canonical graphs cannot."""
+    p = len(out)
+    labels = [int(v) for v in rng.permutation(P)[:p]]
+    if P > 8 and max(labels) < 8:
+        labels[int(rng.integers(p))] = int(rng.integers(8, P))
+        if len(set(labels)) < p:
+            labels = [int(v) for v in rng.permutation(P)[:p]]
+    big = [0] * P
+    for i in range(p):
+        for j in G.bits(out[i]):
+            big[labels[i]] |= 1 << labels[j]
+    return big
+
+
+def embed_any(out, P, rng, code):
+    """Random relabelling for even codes, hash-hostile relabelling (see embed_hostile) for odd ones."""
+    return embed_hostile(out, rng) if code % 2 else embed(out, P, rng)
+
+
+_DTYPES_BINARY = (np.int8, np.int32, np.uint8, np.float32, np.int64, np.float64, bool)
+
+
+def hostile_array(A, h):
+    """The same matrix in a different *presentation*, chosen by the integer h: the re-used caller-owned buffer (see
+    ``reuse``), Fortran order, a strided view into a larger array, a read-only array, another dtype (0/1 matrices only).
+    None of these change the matrix a user passes; code that assumes C-contiguity, writes into its input or keys a cache
+    on raw bytes / identity answers differently."""
+    A = np.asarray(A)
+    k = h % 8
+    if k <= 2:
+        return reuse(A)
+    if k == 3:
+        return np.asfortranarray(A)
+    if k == 4:
+        B = np.zeros((A.shape[0] * 2, A.shape[1] * 3), dtype=A.dtype)
+        B[1::2, ::3] = A
+        return B[1::2, ::3]
+    if k == 5:
+        R = A.copy()
+        R.flags.writeable = False
+        return R
+    if k == 6 and A.size and bool(((A == 0) | (A == 1)).all()):
+        return A.astype(_DTYPES_BINARY[(h // 8) % len(_DTYPES_BINARY)])
+    return A
